@@ -118,6 +118,14 @@ impl CertificateSigningRequestParams {
 			..CertificateParams::default()
 		};
 		let raw = info.subject_pki.subject_public_key.data.to_vec();
+		let public_key = PublicKey { alg, raw };
+		// A certificate issued from this request carries our own encoding of the public key
+		// under `alg`: refuse requests whose key is not of the type their signature algorithm
+		// was mapped to (e.g. a P-384 key signing with SHA-256), instead of relabelling the key.
+		let spki = yasna::construct_der(|writer| serialize_public_key_der(&public_key, writer));
+		if spki != info.subject_pki.raw {
+			return Err(Error::UnsupportedSignatureAlgorithm);
+		}
 
 		if let Some(extensions) = csr.requested_extensions() {
 			for ext in extensions {
@@ -185,7 +193,7 @@ impl CertificateSigningRequestParams {
 
 		Ok(Self {
 			params,
-			public_key: PublicKey { alg, raw },
+			public_key,
 		})
 	}
 
